@@ -3,12 +3,13 @@ import asyncio
 import re
 
 import rig
+import translate
 import vloop
 from common import Driver, DriverFailure, hx
 
 LEVEL = "proof"
 MANIFEST = dict(
-    text="Lean 4 invariants over a transition system of the receive queue, proved for EVERY reachable state (induction over action sequences):  Session 4: the client event handler really suspends (0/250/0/120 ms by round) so peek and pop are separated by other consumers turns; a consumer task that ends with an exception is a violation."
+    text="Lean 4 invariants over a transition system of the receive queue, proved for EVERY reachable state (induction over action sequences):  Session 4: the client event handler really suspends (0/250/0/120 ms by round) so peek and pop are separated by other consumers turns; a consumer task that ends with an exception is a violation. The atomic consumer step of the model is itself proved: the suspension skeletons of the three consuming coroutines are regenerated from the source, a static analysis proved sound for every trace (scan_sound) shows no suspension point between looking at the head and popping it, and atomic_sections lifts that to every schedule of the event loop (peek_pop_atomic_in_every_schedule)."
          "FIFO conservation pops ++ queue = puts with distinct arrival numbers (each datagram leaves exactly once, never both taken and discarded), every pop "
          "is by a consumer that accepts the verb or by the unhandled consumer, the mark flag always designates the unchanged head (a discard happens only after a "
          "full polling interval unclaimed), mis-addressed packets re-queue nothing; and, when the event loop does not stall, no datagram is at the head for more than "
@@ -334,6 +335,11 @@ def packet_consumer_histories(ctx):
 
 
 def run(ctx):
+    st = translate.run(["Skeletons", "WireFormats", "WirePins"])
+    ctx.cov["translator"] = st
+    for k, v in st.items():
+        if v != "ok":
+            ctx.obligation_broken(f"translate:{k}", v)
     ctx.lean_obligations("GeckoModel.Properties.C07")
     packet_consumer_histories(ctx)
     rng = ctx.rng
